@@ -580,6 +580,12 @@ def shaky_observables(world, obj, base, probes):
                     break
             if flat:
                 out |= {"mean_curvature", "asphericity", "tau", "get_dihedral"}
+                # ... and whether the hull merges such a pair into one face is decided by
+                # a tolerance: every recomputation (each mover triggers one) may decide
+                # differently, so the face structure itself is borderline in this state
+                out |= {"equations", "normals", "faces", "num_faces", "neighbors", "edges",
+                        "num_edges", "edge_vectors", "edge_lengths", "face_centroids",
+                        "get_face_area", "simplices", "repr", "gsd_shape_spec"}
                 if core is not obj:
                     out |= {"volume", "surface_area", "iq", "polyhedron"}
     except Exception as e:  # noqa: BLE001
@@ -605,6 +611,27 @@ def shaky_observables(world, obj, base, probes):
         if type(e).__name__ == "HarnessTimeout":
             raise
     return out
+
+
+BORDERLINE_FACES = {"mean_curvature", "asphericity", "tau", "get_dihedral", "equations",
+                    "normals", "faces", "num_faces", "neighbors", "edges", "num_edges",
+                    "edge_vectors", "edge_lengths", "face_centroids", "get_face_area",
+                    "simplices", "repr", "gsd_shape_spec"}
+
+
+def _flat_in_snapshot(snap):
+    """Two neighbouring faces coplanar to within rounding, read off a snapshot."""
+    try:
+        if snap.get("normals", ("x",))[0] != "ok" or snap.get("neighbors", ("x",))[0] != "ok":
+            return False
+        nrm = np.asarray(snap["normals"][1], float)
+        for i, nb in enumerate(snap["neighbors"][1]):
+            for j in np.asarray(nb).astype(int).tolist():
+                if abs(float(np.dot(nrm[i], nrm[j]))) > 1.0 - 1e-12:
+                    return True
+    except Exception:  # noqa: BLE001
+        return False
+    return False
 
 
 def _excused(world, obj, base, probes, st, why):
@@ -703,6 +730,17 @@ def execute(spec, world):
                              for k, v in g.items())
             except Exception:  # noqa: BLE001
                 usable = False
+            if usable:
+                # queries are judged on coherent states only: a mutator that left the face
+                # list and the plane equations with different lengths is C03's business
+                try:
+                    core = history.target_of(obj) or obj
+                    if hasattr(core, "equations") and hasattr(core, "faces") and \
+                            len(core.equations) != len(core.faces):
+                        usable = False
+                        C["state_after_mutation_incoherent"] += 1
+                except Exception:  # noqa: BLE001
+                    pass
             if not usable:
                 C["state_after_mutation_unusable"] += 1
                 break
@@ -868,6 +906,8 @@ def execute(spec, world):
             # geometry; an operation that is *not* a mover is still held to the strict rule
             # below, where nothing is excused.
             shaky = shaky_observables(world, obj, base, probes)
+            if _flat_in_snapshot(ref_snap) or _flat_in_snapshot(snap1):
+                shaky |= BORDERLINE_FACES
             kept = [x for x in d if x[0] not in shaky]
             C["ill_conditioned_skips"] += len(d) - len(kept)
             d = kept
